@@ -817,6 +817,11 @@ func ruleTDepth(w *World, r *Report) {
 		} else {
 			r.bad("T-DEPTH", "guard:"+fnName(f), w.pos(f.Pos()), fmt.Sprintf("guard on %s never decrements: the counter counts calls, not nesting, and valid long expressions are rejected", g.Field))
 		}
+		if site := w.overDecrement(f, g.Field); site != nil {
+			r.bad("T-DEPTH", "guard-balance:"+fnName(f), w.instrPos(site), fmt.Sprintf("some path through %s lowers %s more than once (inline and/or deferred) for one increment: constructs with a completed sibling on each level are not counted, the limit never fires for them and nesting is unbounded (fatal stack overflow)", fnName(f), g.Field))
+		} else {
+			r.ok("T-DEPTH", "guard-balance:"+fnName(f), w.pos(f.Pos()), "no path decrements the counter more than once per increment")
+		}
 		if g.Limit > 100000 {
 			r.bad("T-DEPTH", "guard-limit:"+fnName(f), w.pos(f.Pos()), fmt.Sprintf("depth limit %d is too large to protect the stack", g.Limit))
 		}
@@ -1516,6 +1521,79 @@ func residualCycle(comp []*ssa.BasicBlock, inComp, cut map[*ssa.BasicBlock]bool)
 		if !cut[b] && color[b] == 0 && found == nil {
 			dfs(b)
 		}
+	}
+	return found
+}
+
+
+// overDecrement: a path from the entry of guard function fn to a return on
+// which the depth field is decremented more than once (deferred closures that
+// decrement count at the point where they are registered).
+func (w *World) overDecrement(fn *ssa.Function, field string) ssa.Instruction {
+	isDec := func(in ssa.Instruction) bool {
+		st, ok := in.(*ssa.Store)
+		if !ok {
+			return false
+		}
+		fa, ok := st.Addr.(*ssa.FieldAddr)
+		if !ok || fieldOfAddr(fa).Name() != field {
+			return false
+		}
+		bo, ok := st.Val.(*ssa.BinOp)
+		return ok && bo.Op == token.SUB
+	}
+	decs := func(in ssa.Instruction) int {
+		if isDec(in) {
+			return 1
+		}
+		if d, ok := in.(*ssa.Defer); ok {
+			var cf *ssa.Function
+			if mc, ok := d.Call.Value.(*ssa.MakeClosure); ok {
+				cf, _ = mc.Fn.(*ssa.Function)
+			} else if f, ok := d.Call.Value.(*ssa.Function); ok {
+				cf = f
+			} else if f := d.Call.StaticCallee(); f != nil {
+				cf = f
+			}
+			n := 0
+			if cf != nil && w.inPkg(cf) {
+				eachInstr(cf, false, func(_ *ssa.Function, x ssa.Instruction) {
+					if isDec(x) {
+						n++
+					}
+				})
+			}
+			return n
+		}
+		return 0
+	}
+	type st struct {
+		b *ssa.BasicBlock
+		n int
+	}
+	seen := map[st]bool{}
+	var found ssa.Instruction
+	var dfs func(b *ssa.BasicBlock, n int)
+	dfs = func(b *ssa.BasicBlock, n int) {
+		if found != nil || seen[st{b, n}] {
+			return
+		}
+		seen[st{b, n}] = true
+		for _, in := range b.Instrs {
+			if k := decs(in); k > 0 {
+				n += k
+				if n >= 2 {
+					found = in
+					return
+				}
+			}
+		}
+		for _, s := range b.Succs {
+			dfs(s, n)
+		}
+	}
+	if len(fn.Blocks) > 0 {
+		dfs(fn.Blocks[0], 0)
 	}
 	return found
 }
